@@ -18,7 +18,7 @@ import sys
 from harness import cosched
 
 U = 1024          # program time unit: 1/1024 s (or beat)
-TU = 65536        # trace time unit: 1/65536
+TU = 1 << 20       # trace time unit: 2^-20
 K = TU // U
 
 
@@ -72,6 +72,10 @@ def main_():
     os._exit(0)
 
 
+class NonDyadic(Exception):
+    """a time finer than the trace unit: the execution cannot be written down exactly and is skipped"""
+
+
 def make_strategy(st):
     k = st.get('kind', 'random')
     if k == 'random':
@@ -93,23 +97,25 @@ def run_program(S, prog, main, clk, stm, fn):
     S.log = []
     base_now = S.now
     base_el = main.elapsed_time()
+    out = dict(id=prog['id'], broken=False)
 
     def rel(x):
         v = (x - base_el) * TU
         iv = int(round(v))
         if iv != v:
-            raise AssertionError('non-dyadic time %r' % x)
+            out['nondyadic'] = 'time %r' % x       # finer than the trace unit: this execution is skipped
+            return 0
         return iv
 
     def reln(x):
         v = (x - base_now) * TU
         iv = int(round(v))
         if iv != v:
-            raise AssertionError('non-dyadic now %r' % x)
+            out['nondyadic'] = 'now %r' % x
+            return 0
         return iv
 
     clocks = {'sys': clk.SystemClock, 'app': clk.AppClock}
-    out = dict(id=prog['id'], broken=False)
     S.log_on = True
     S.strategy = make_strategy(prog.get('strategy', {}))
     tempo_threads = {}
@@ -196,7 +202,8 @@ def run_program(S, prog, main, clk, stm, fn):
                 b = clock.beats
                 v = b * TU
                 if v != int(v):
-                    raise AssertionError('non-dyadic beats %r' % b)
+                    out['nondyadic'] = 'beats %r' % b
+                    v = 0
                 ev['lb'] = int(v)
             S.emit('task_begin', **ev)
             return k
@@ -250,7 +257,7 @@ def run_program(S, prog, main, clk, stm, fn):
         alive = {k: bool(getattr(c, '_thread', None) is not None and c._thread.is_alive()) for k, c in clocks.items()}
         S.emit('end', arg=prog['horizon'] * K, alive=[k for k, v in sorted(alive.items()) if v], dead=[k for k, v in sorted(alive.items()) if not v],
                users_done=all(not t.is_alive() for t in spawned))
-        if not all(alive.values()):
+        if not (alive['sys'] and alive['app']):
             out['broken'] = True
     except (cosched.Deadlock, cosched.StepLimit) as e:
         S.log_on = True
@@ -262,21 +269,20 @@ def run_program(S, prog, main, clk, stm, fn):
     names = {'sys': clk.SystemClock._thread._m.name, 'app': clk.AppClock._thread._m.name}
     names.update(tempo_threads)
     ev = []
-    for e in S.log:
-        d = dict(e)
-        d.pop('i', None)
-        d.pop('seq', None)
-        d['now'] = reln(e['now'])
-        if 'deadline' in d:
-            d['deadline'] = -1 if d['deadline'] is None else reln(d['deadline'])
-        if 'timeout' in d:
-            d.pop('timeout')
-        ev.append(norm(d))
+    try:
+        ev = convert(S.log, reln)
+    except NonDyadic as e:
+        out['nondyadic'] = str(e)
     out['ev'] = ev
     out['clockthread'] = {v: k for k, v in names.items()}
     st = S.strategy
     out['branch'] = getattr(st, 'branch', [])
-    # tidy up: stop tempo clocks of this program
+    tidy(S, out, tempo_threads, clocks, cosched)
+    return out
+
+
+def tidy(S, out, tempo_threads, clocks, cosched):
+    # stop the tempo clocks of this program
     if not out['broken']:
         S.strategy = cosched.FifoStrategy()
         for name in tempo_threads:
@@ -287,7 +293,21 @@ def run_program(S, prog, main, clk, stm, fn):
             except Exception:
                 pass
         S.settle(horizon=S.now)
-    return out
+
+
+def convert(log, reln):
+    ev = []
+    for e in log:
+        d = dict(e)
+        d.pop('i', None)
+        d.pop('seq', None)
+        d['now'] = reln(e['now'])
+        if 'deadline' in d:
+            d['deadline'] = -1 if d['deadline'] is None else reln(d['deadline'])
+        if 'timeout' in d:
+            d.pop('timeout')
+        ev.append(norm(d))
+    return ev
 
 
 KEYS = dict(th='', op='', now=0, api='', clock='', task='', arg=0, arg2=1, inner=False, lock='', cond='',
